@@ -121,15 +121,15 @@ func main() {
 			hx.Emit(searchObserve(p, "tokens"))
 		}
 	case "code":
-		// code leg: every pattern of length <= 2, a seed-rotated 1/64 of length 3, and -n token patterns
+		// code leg: every pattern of length <= 1, seed-rotated 1/8 of length 2 and 1/192 of length 3 (thorough: all, all, 1/4), and -n token patterns
 		r := hx.Rand(o.Seed, 1700)
 		for l := 0; l <= 3; l++ {
 			np := hxpat.NumPatterns(l)
 			for i := 0; i < np; i++ {
-				if l == 2 && o.Tier != "thorough" && uint64(i%4) != o.Seed%4 {
+				if l == 2 && o.Tier != "thorough" && uint64(i%8) != o.Seed%8 {
 					continue
 				}
-				if l == 3 && (o.Tier != "thorough" && uint64(i%96) != o.Seed%96 || o.Tier == "thorough" && uint64(i%4) != o.Seed%4) {
+				if l == 3 && (o.Tier != "thorough" && uint64(i%192) != o.Seed%192 || o.Tier == "thorough" && uint64(i%4) != o.Seed%4) {
 					continue
 				}
 				codeRows(hxpat.Pattern(l, i), "enum", r)
